@@ -1,7 +1,9 @@
 #!/bin/sh
 # dev helper: ./devcase.sh <scen> <casefrom> <count> [trace]
 export GOFLAGS=-mod=mod GOPROXY=off GOSUMDB=off GOTOOLCHAIN=local GOLOG_LOG_LEVEL=fatal
-cd /verif/sim && /usr/local/bin/go1.26.8 test -c -tags verif -o /verif/bin/dev.test ./worker || exit 2
+MF=""
+if [ -n "$DEVREPO" ]; then sed "s|=> /repo|=> $DEVREPO|" /verif/sim/go.mod > /verif/bin/dev.alt.mod; cp $DEVREPO/go.sum /verif/bin/dev.alt.sum; MF="-modfile=/verif/bin/dev.alt.mod"; fi
+cd /verif/sim && /usr/local/bin/go1.26.8 test -c -tags verif $MF -o /verif/bin/dev.test ./worker || exit 2
 TR=false; [ -n "$4" ] && TR=true
 VERIF_WORKER_ARGS="{\"scen\":\"$1\",\"tier\":\"quick\",\"case_from\":$2,\"case_count\":$3,\"case_seed\":1,\"trace\":$TR}" GOMAXPROCS=${GOMAXPROCS:-1} /verif/bin/dev.test -test.run TestSim -test.timeout 0 2>&1 | python3 -c "
 import sys,json,collections
